@@ -14,17 +14,17 @@ Example ex_legit : forallb legit ex_ops = true.
 Proof. reflexivity. Qed.
 
 Example ex_deliveries :
-  toCons (run (sys_init 1 true 3) ex_ops) = [Delivery 1 101 1; Delivery 1 101 1; Delivery 1 102 2].
+  toCons (run (sys_init 1 true 3 false) ex_ops) = [Delivery 1 101 1; Delivery 1 101 1; Delivery 1 102 2].
 Proof. vm_compute. reflexivity. Qed.
 
 Example ex_state :
-  let s := run (sys_init 1 true 3) ex_ops in
+  let s := run (sys_init 1 true 3 false) ex_ops in
   p_log (sP s) = [101; 102] /\ p_cur (sP s) = 2 /\ p_conf (sP s) = 0 /\ c_conf (sC s) = 2 /\ c_upto (sC s) = 5 /\
   p_failed (sP s) = false.
 Proof. vm_compute. repeat split; reflexivity. Qed.
 
 (* the producer has not yet heard of the confirmations; the computed continuation brings its watermark forward *)
 Example ex_recover :
-  let s := run (sys_init 1 true 3) ex_ops in
+  let s := run (sys_init 1 true 3 false) ex_ops in
   p_conf (sP (run s (recover s))) = 2 /\ forallb legit (recover s) = true.
 Proof. vm_compute. split; reflexivity. Qed.
